@@ -205,6 +205,27 @@ def oracle_poling(ctx, obs, cases):
             hopeless = gl0 * L / 2 <= -1e-3
             ctx.count(("poling[non-collinear]" if ths != 0 else "poling[collinear]") + ": "
                       + ("no period <= L phase-matches" if hopeless else "some period <= L phase-matches") + " -> " + r["class"])
+        tao = o.get("spdc_try_as_optimum")
+        if tao and ths == 0:
+            # poled base, collinear signal: the returned setup carries the optimum poling of optimum_poling_period
+            ctx.count(f"SPDC::try_as_optimum (poled base, collinear): {tao['class']}")
+            if tao["class"] == "panic":
+                ctx.violation("S5", f"SPDC::try_as_optimum panicked: {tao['message'][:100]}", {"kind": "panic", "route": "SPDC::try_as_optimum"}, rep)
+            elif (tao["class"] == "ok") != (r["class"] == "ok"):
+                ctx.violation("S5", f"SPDC::try_as_optimum ({tao['class']}) and optimum_poling_period ({r['class']}) disagree on a collinear setup",
+                              {"kind": "poling_routes", "route": "SPDC::try_as_optimum"}, rep)
+            elif tao["class"] == "ok" and r.get("value") and fl(r["value"]) != float("inf"):
+                if not tao["pp"]["on"] or fl(tao["pp"]["signed_period"]) != fl(r["value"]):
+                    ctx.violation("S5", f"SPDC::try_as_optimum installs poling {tao['pp']} but optimum_poling_period gives {fl(r['value'])!r} m",
+                                  {"kind": "poling_routes", "route": "SPDC::try_as_optimum"}, rep)
+        elif tao and tao["class"] == "ok" and tao["pp"]["on"] and tao.get("dkz") and is_finite_hex(tao["dkz"]):
+            # non-collinear start: the returned setup is collinear; its own residual must be small when its period is well inside the crystal
+            Lr, per = fl(tao["length"]), abs(fl(tao["pp"]["signed_period"]))
+            val = abs(fl(tao["dkz"])) * Lr / 2
+            ctx.count("SPDC::try_as_optimum (poled base, signal starts non-collinear): ok")
+            if per < Lr - 2e-6 and not val < 1e-3:
+                ctx.violation("S5", f"SPDC::try_as_optimum (poled base, signal started non-collinear) returns period {per!r} m with |dkz| L/2 = {val:.3e} for its own collinear signal",
+                              {"kind": "poling_residual", "route": "SPDC::try_as_optimum", "signal_started": "non-collinear"}, rep)
         rx = o["replica"]["result"]
         if o["replica"]["table"]:
             ctx.count("poling: evaluated costs V-shaped (hypothesis of the convergence theorem): " + ("yes" if table_is_v_shaped(o["replica"]["table"]) else "no"))
@@ -306,6 +327,31 @@ def oracle_theta(ctx, obs, cases):
                 if fl(i["signal_theta"]) != 0 and o["residual_object"] and is_finite_hex(o["residual_object"]):
                     v2 = abs(fl(o["residual_object"])) * L / 2
                     ctx.count("theta: non-collinear signal, object residual (internal angle kept) " + ("< 1e-3" if v2 < 1e-3 else ">= 1e-3"))
+        # SPDC::try_as_optimum on the unpoled setup: the RETURNED setup (signal re-aimed along the axis, crystal angle optimised for it)
+        tao = o.get("spdc_try_as_optimum")
+        if tao:
+            started = "collinear" if fl(i["signal_theta"]) == 0 else "non-collinear"
+            ctx.count(f"SPDC::try_as_optimum (unpoled, signal starts {started}): {tao['class']}")
+            if tao["class"] == "panic":
+                ctx.violation("S5", f"SPDC::try_as_optimum panicked: {tao['message'][:100]}", {"kind": "panic", "route": "SPDC::try_as_optimum"}, rep)
+            elif tao["class"] == "ok":
+                tht, Lr = fl(tao["crystal_theta"]), fl(tao["length"])
+                gc = [fl(x["theta"]) for x in o.get("roots_collinear", []) if is_finite_hex(x["dkz"]) and abs(fl(x["dkz"])) * Lr / 2 < 1e-3]
+                if fl(tao["signal_theta"]) != 0 or tao["pp"]["on"]:
+                    ctx.violation("S5", "SPDC::try_as_optimum on an unpoled co-propagating setup does not return a collinear signal without poling",
+                                  {"kind": "try_as_optimum_shape"}, rep)
+                if not (0 <= tht <= math.pi / 2):
+                    ctx.violation("S5", f"SPDC::try_as_optimum: crystal angle {math.degrees(tht)!r} deg outside [0, 90] deg",
+                                  {"kind": "theta_range", "route": "SPDC::try_as_optimum"}, rep)
+                if gc and tao.get("dkz") and is_finite_hex(tao["dkz"]):
+                    val = abs(fl(tao["dkz"])) * Lr / 2
+                    if not val < 1e-3:
+                        ctx.violation("S5", f"SPDC::try_as_optimum returns an unpoled setup with crystal angle {math.degrees(tht):.6g} deg whose own |dkz| L/2 = {val:.4g}, "
+                                      f"although {math.degrees(gc[0]):.4f} deg phase-matches its collinear signal ({i['crystal']} {i['pm_type']}, signal started at "
+                                      f"{math.degrees(fl(i['signal_theta'])):.3f} deg internal)",
+                                      {"kind": "theta_residual", "crystal": i["crystal"], "pm_type": i["pm_type"], "returned_near_zero": bool(tht < 1e-3),
+                                       "route": "SPDC::try_as_optimum", "signal_started": started},
+                                      dict(rep, residual=val, returned_theta_deg=math.degrees(tht), call="SPDC::new(.., PeriodicPoling::Off, ..).try_as_optimum()"))
         rx = o["replica"]["result"]
         if rx["ok"] and rx["x"] != r["value"]:
             ctx.violation("S5", "replica of the internal minimisation (public API, same seeds) returns another angle than optimum_theta",
@@ -348,8 +394,7 @@ def correspondence(ctx, nm_obs, real_obs):
         r = o["replica"]
         if not r["result"]["ok"] or not r["table"]:
             continue
-        if any(not is_finite_hex(c) and fl(c) != float("inf") for _, c in r["table"]):
-            continue  # NaN cost: the panic path of C17
+        # (a NaN cost in the table is +infinity for the solver since /repo d569966: the model's fcost maps it the same way)
         cid = f"{o['kind']}{o['tag']}{o['i']}"
         exprs.append((cid, nm_expr_table(r)))
         meta[cid] = (o["kind"], o)
